@@ -104,6 +104,8 @@ func (x *Exec) buildVC(o *Obligation) *VC {
 	if len(globs) > 1 {
 		vc.Asserts = append(vc.Asserts, App("distinct", "Bool", globs...))
 	}
+	vc.Asserts = append(vc.Asserts, x.unfoldHFuncs(append(append([]*Term{}, vc.Asserts...), o.Goal))...)
+	vc.Asserts = append(vc.Asserts, normAxioms()...)
 	vc.Asserts = append(vc.Asserts, ifaceFacts()...)
 	if _, ok := symTab["ix"]; ok {
 		vc.Asserts = append(vc.Asserts, ixAxiom())
@@ -224,7 +226,11 @@ func (x *Exec) solveAll(obls []*Obligation, dir string, timeoutS int, agree bool
 		go func() {
 			defer wg.Done()
 			defer func() { <-sem }()
-			o.Result = solveText(dir, vcs[i].Name, text, timeoutS, agree)
+			to := timeoutS
+			if o.Kind == "canary" && to > 3 {
+				to = 3 // a canary only has to fail to be refuted
+			}
+			o.Result = solveText(dir, vcs[i].Name, text, to, agree && o.Kind != "canary")
 		}()
 	}
 	wg.Wait()
